@@ -19,7 +19,7 @@ def one(d):
             return d, {"error": "patch does not apply: " + r.stderr[-200:]}
         t0 = time.time()
         env = dict(os.environ, VERIF_REPO=wt, VERIF_EVIDENCE="/tmp/seed-evidence", VERIF_REPLAYS="/tmp/seed-replays/" + d)
-        c = subprocess.run(["/verif/check", pid, tier], capture_output=True, text=True, env=env)
+        c = subprocess.run([os.environ.get("SWEEP_CHECK", "/verif/check"), pid, tier], capture_output=True, text=True, env=env)
         sigs = [l[4:].strip()[:80] for l in c.stdout.splitlines() if l.startswith("--- ")]
         res = {"check": pid, "exit": c.returncode, "signatures": sigs[:5], "wall_s": round(time.time() - t0, 1)}
         # a change that is a violation of a neighbouring property as well may name that check in meta.json ("also")
@@ -29,14 +29,14 @@ def one(d):
             also = []
         if c.returncode != 1:
             for other in also:
-                c2 = subprocess.run(["/verif/check", other, tier], capture_output=True, text=True, env=env)
+                c2 = subprocess.run([os.environ.get("SWEEP_CHECK", "/verif/check"), other, tier], capture_output=True, text=True, env=env)
                 if c2.returncode == 1:
                     s2 = [l[4:].strip()[:80] for l in c2.stdout.splitlines() if l.startswith("--- ")]
                     res.update({"exit": 1, "caught_by_other_check": other, "signatures": s2[:5]})
                     break
         return d, res
     finally:
-        subprocess.run("git -C /repo worktree remove --force %s; rm -rf %s /verif/.build/*-_tmp_sweepwt-%s" % (wt, wt, d), shell=True)
+        subprocess.run("git -C /repo worktree remove --force %s; rm -rf %s %s/.build/*-_tmp_sweepwt-%s" % (wt, wt, os.path.dirname(os.environ.get("SWEEP_CHECK", "/verif/check")), d), shell=True)
 todo = [d for d in sorted(os.listdir(root)) if os.path.exists(os.path.join(root, d, "patch.diff")) and (not only or d in only)]
 prev = {}
 sp = os.path.join(root, "SWEEP_%s%s.json" % (tier, os.environ.get("SWEEP_TAG", "")))
